@@ -142,6 +142,19 @@ def run_case(cb):
             return (f"grand:{r[1]}", r[2])
         if r[1] != want:
             return (f"grand:{field}", f"grand total {field} = {r[1]}, expected {want}")
+    # the incremental path the scanner uses for its live overview: a fresh ScanTotals() fed entry by entry
+    def incremental():
+        t = ScanTotals()
+        for e in codebase.files.values():
+            t.add(e)
+        return {lt.language: (lt.files, lt.loc, lt.functions, lt.hard_to_maintain, lt.unmaintainable) for lt in t.languages_totals()}
+
+    r = call_sut(incremental)
+    if r[0] == "exc":
+        return (f"scan-totals-incremental:{r[1]}", r[2])
+    want_inc = {k: (v["files"], v["lines_of_code"], v["functions"], v["hard_to_maintain"], v["unmaintainable"]) for k, v in totals.items()}
+    if r[1] != want_inc:
+        return ("scan-totals-incremental", f"ScanTotals() fed with this codebase's entries gives {r[1]}, expected {want_inc}")
     all_loc = sum(sum(f["lengths"]) for f in cb["files"])
     if codebase.total_loc() != all_loc:
         return ("grand:codebase-total-loc", f"Codebase.total_loc() = {codebase.total_loc()}, expected {all_loc}")
